@@ -746,6 +746,10 @@ def model_record(ex, model, harness, params):
         elif kind == 'float':
             if model is None:
                 f = 0.0
+            elif z3.is_fp(v):
+                import struct
+                bv = z3.simplify(z3.fpToIEEEBV(model.eval(v, model_completion=True)))
+                f = struct.unpack('>d', struct.pack('>Q', bv.as_long()))[0]
             else:
                 val = model.eval(v, model_completion=True)
                 try:
